@@ -3,7 +3,8 @@ from common import *
 
 CLAIMED = True
 LEVEL = 'proof'
-LEVEL_TEXT = ('Proof: 19 Coq theorems (coq/Properties/C11.v) over the Gallina model of RawData::load/store for RawU1..RawU32 in both '
+LEVEL_TEXT = ('Proof: 26 Coq theorems (coq/Properties/C11.v), for every usize width (the model is parameterised by the class Usize, usize::MAX >= 65535; '
+              'instances usize16/usize32/usize64), over the Gallina model of RawData::load/store for RawU1..RawU32 in both '
               'data orders and of RawDataIterator (coq/Model/Rawdata.v: bit_position, shift/mask expressions as written with u8 truncation, '
               'from/to_le/be_bytes, index.checked_mul(N), saturating nth, size_hint): store-then-load returns the value; every other '
               'pixel index loads the same value and every bit outside pixel i keeps its value (bit-level frame, with disjointness and '
@@ -13,12 +14,17 @@ LEVEL_TEXT = ('Proof: 19 Coq theorems (coq/Properties/C11.v) over the Gallina mo
               'nth(n) returns item n of the remainder and continues behind it (also when index+n saturates); size_hint equals the number '
               'of remaining items; any mix of next()/nth(k) behaves like the same calls on the item list. The single-byte facts are '
               'decided by vm_compute over the whole finite domain (3 widths x 2 orders x positions x 256 bytes x all values) and lifted to '
-              'buffers by list lemmas. The model is tied to the code by running the extracted model and the real functions on the same inputs.')
+              'buffers by list lemmas. raw_ok (v < 2^bits) is closed: new/from_u32 mask into it and load returns it (C11_new_is_raw, C11_load_is_raw), so any '
+              'u32 handed over through from_u32 round-trips to its masked value. C11_raw_load_eq_load bridges to the raw load of the C09 image model. '
+              'The model is tied to the code by running the extracted model (usize64 instance) and the real functions on the same inputs.')
 LEVEL_NOTE = ('Trusted: Coq kernel, extraction (ExtrOcamlBasic), the OCaml/Rust drivers; the hand-written model is validated by differential '
-              'testing on every run, not proved equal to the Rust source. usize is 64 bit (the harness target).')
-RULE = ('correspondence: load, store (result, all bytes afterwards, load after store), the collected iterator with its initial size_hint, and '
+              'testing on every run, not proved equal to the Rust source. The dynamic tie runs on the 64-bit harness target only; the 16- and 32-bit '
+              'instances are covered by the theorems and by the same source text.')
+RULE = ('correspondence: load, store (the value from_u32 built - observes the mask of every raw type incl. RawU24 -, result, all bytes afterwards, load after store; '
+        'one unmasked u32 per index), rd_big / rd_big_nth: single load / store / nth with neighbours and the list of changed bytes on rule-generated '
+        'buffers of 300..140000 bytes at indices around 2^8 and 2^16 and around the end, the collected iterator with its initial size_hint, and '
         'random mixes of next()/nth(k) with size_hint after every call, for 7 raw widths x 2 data orders x every buffer length 0..=L (L=6 quick, 10 '
-        'thorough) x 4 background byte patterns x every index 0..=pixels+1 plus indices on both sides of usize::MAX / bytes_per_pixel; '
+        'thorough) x 4 background byte patterns x every index 0..=pixels+1 plus indices on both sides of usize::MAX / bytes_per_pixel and around 2^8, 2^16, 2^24, 2^32; '
         'plus random buffers up to 40 bytes. Non-trivial = the model result is not none/empty. '
         'search (implementation only, against an independent bit-by-bit reference of the documented layout): p_rd_store = for every value '
         '(exhaustive up to 8 bpp, up to 16 bpp on selected cases, boundary+random above) store at every index, compare all bytes with the reference, '
@@ -39,6 +45,8 @@ PARTIAL = []
 #   RawU8 store with a clamped index (writes the last byte instead of Err)
 #   iterator: nth with wrapping_add (first only seen by correspondence -> p_rd_iter got the huge-skip section), size_hint branches
 #   swapped (= original defect b), size_hint ignoring the index
+# round 2: RawU24 MASK = u32::MAX; index truncated to u16 in bit_position; byte offset truncated to u16 in RawU16 load; index truncated to u8
+#   in RawU8 load; seeded C11-A (keep mask `!MASK << k`) and C11-B (nth not consuming past the end): all VIOLATION with a failing input
 # Not distinguishable by any observation (benign): `>= 8` -> `> 8` in size_hint (8 bpp gives len either way).
 
 BPPS = [1, 2, 4, 8, 16, 24, 32]
@@ -62,16 +70,18 @@ def some_values(rng, bpp, k):
     vs = [0, m, 1, m >> 1, (m >> 1) + 1, 0x1234 & m, 0x123456 & m, 0x12345678 & m]
     out = [rng.choice(vs) for _ in range(k)]
     out.append(rng.randrange(m + 1))
-    # from_u32 masks: now and then hand over an unmasked u32
-    if rng.random() < 0.2:
-        out.append(rng.randrange(2 ** 32))
+    # from_u32 masks: always hand over one unmasked u32 with the bits above the pixel width set
+    # (rd_store prints the value from_u32 built, so the mask of every type incl. RawU24 is observed)
+    out.append(rng.choice([0xFFFFFFFF, 0xFF123456, 0x80000000 | rng.randrange(2 ** 31), rng.randrange(2 ** 32) | 0xFF000000]))
     return out
 
 
 def far_indices(bpp):
     n = max(1, bpp // 8)
     # far beyond the buffer, on both sides of the checked_mul boundary (index * bytes_per_pixel = usize::MAX)
-    return [i for i in [USIZE_MAX // n, USIZE_MAX // n - 1, USIZE_MAX // n + 1, 2 ** 63 // n, 2 ** 32, 2 ** 32 + 1] + OVERFLOWING
+    # ... and around 2^8, 2^16, 2^24 (a truncated index or byte offset would land back inside a small buffer)
+    small = [255, 256, 257, 65535, 65536, 65537, 2 ** 16 // n, 2 ** 16 // n + 1, 2 ** 24, 2 ** 24 + 1, 2 ** 32 // n, 2 ** 32 // n + 1]
+    return [i for i in [USIZE_MAX // n, USIZE_MAX // n - 1, USIZE_MAX // n + 1, 2 ** 63 // n, 2 ** 32, 2 ** 32 + 1] + OVERFLOWING + small
             if i <= USIZE_MAX]
 
 
@@ -111,12 +121,32 @@ def cases(tier, rng):
                 tot = total(bpp, n)
                 for bg in backgrounds(rng, n):
                     yield J('rd_iter', bpp, alt, *bg)
-                    for idx in list(range(0, tot + 2)) + [rng.choice(far_indices(bpp))]:
+                    for idx in list(range(0, tot + 2)) + rng.sample(far_indices(bpp), 3):
                         yield J('rd_load', bpp, alt, idx, *bg)
                         for v in some_values(rng, bpp, reps):
                             yield J('rd_store', bpp, alt, idx, v, *bg)
                     for _ in range(2 * reps):
                         yield J('rd_ops', bpp, alt, n, *bg, *ops(rng, bpp, tot, rng.randrange(1, 9)))
+    # large buffers (given by a rule, not byte by byte): single load / store / nth at indices beyond 2^8 and 2^16,
+    # where a truncated index or byte offset would address a different pixel
+    for bpp in BPPS:
+        nb = max(1, bpp // 8)
+        for alt in (0, 1):
+            for length in ([300, 70000] if tier == 'quick' else [300, 8200, 70000, 140000]):
+                tot = total(bpp, length)
+                idxs = {1, tot - 1, tot, tot + 1, tot // 2}
+                for base in (256, 65536, 65536 // nb, 256 // nb, 65536 * nb, 65536 // max(1, 8 // bpp)):
+                    for d in (-1, 0, 1, 7):
+                        idxs.add(base + d)
+                idxs = sorted(i for i in idxs if i >= 1)
+                if tier == 'quick' and length > 300:
+                    idxs = [i for k, i in enumerate(idxs) if k % 2 == 0 or i >= tot - 1]
+                for idx in idxs:
+                    yield J('rd_big', bpp, alt, length, rng.choice([1, 3, 7, 37]), rng.randrange(256), idx, rng.randrange(2 ** 32))
+                for _ in range(2):
+                    k1 = rng.choice([255, 256, 65535, 65536, tot - 2, tot // 2, rng.randrange(0, tot + 2)])
+                    yield J('rd_big_nth', bpp, alt, length, rng.choice([1, 3, 7, 37]), rng.randrange(256), k1,
+                            rng.choice([0, 1, 255, 256, 65535, 65536, tot, rng.randrange(0, tot + 2)]))
     # longer random buffers
     for _ in range(300 if tier == 'quick' else 3000):
         bpp, alt, n = rng.choice(BPPS), rng.randrange(2), rng.randrange(0, 40)
